@@ -3497,6 +3497,13 @@ def cli_main():
         path = os.path.join(root, 'definitions')
         include_dirs.append(path)
 
+    # validate the hex offset up front (before any output file gets written)
+    if args.hex_offset:
+        try:
+            hex_offset = int(args.hex_offset, base=0)
+        except ValueError:
+            raise SystemExit('invalid hex offset: {}'.format(args.hex_offset))
+
     constants = {}
     labels = {}
     try:
@@ -3525,12 +3532,7 @@ def cli_main():
     if args.hex_offset:
         from intelhex import bin2hex
 
-        try:
-            offset = int(args.hex_offset, base=0)
-        except:
-            raise SystemExit('invalid hex offset: {}'.format(args.hex_offset))
-
-        bin2hex(args.output, args.output + '.hex', offset)
+        bin2hex(args.output, args.output + '.hex', hex_offset)
 
 
 if __name__ == '__main__':
